@@ -133,6 +133,15 @@ def requests(rng, tier):
         for d in (10, 200_000_000, 2 ** 40, 2 ** 63):
             for mx in (None, 10_000_000):
                 add("Expect: %s, Content-Length %d" % (ex.decode(), d), b"POST / HTTP/1.1\r\nExpect: " + ex + b"\r\nContent-Length: %d\r\n\r\n" % d + b"ab", (1000, 1000, mx))
+    # lengths that wrap to something small in a narrower integer: k * 2^w + r announced, a little more than r bytes supplied
+    # (twelfth round: the bytes still missing kept in a u32 between calls)
+    for w, k, r in width_values():
+        d = k * (1 << w) + r
+        if d >= 1 << 64:
+            continue
+        head = b"POST / HTTP/1.1\r\nContent-Length: %d\r\n\r\n" % d
+        s = head + b"0123456789"[:1] * 0 + bytes((48 + i % 10) for i in range(r + 5))
+        add("Content-Length %d * 2^%d + %d, %d bytes supplied" % (k, w, r, r + 5), s, nolim, (len(head), len(head) + 1, len(head) + r, len(s) - 1))
     return items
 
 
@@ -206,7 +215,29 @@ def responses(rng, tier):
         add("empty Content-Length %r next to chunked" % cl, b"HTTP/1.1 200 OK\r\nContent-Length:" + cl + b"\r\nTransfer-Encoding: chunked\r\n\r\n5\r\nhello\r\n0\r\n\r\n")
     for tr in (b"X-A", b"X-A, X-B", b"X-C", b"x-b"):
         add("Trailer: %s announcing some of the fields sent" % tr.decode(), b"HTTP/1.1 200 OK\r\nTrailer: " + tr + b"\r\nTransfer-Encoding: chunked\r\n\r\n2\r\nab\r\n0\r\nX-A: 1\r\nX-B: 2\r\nX-C: 3\r\n\r\n")
+    # lengths and chunk sizes that wrap to something small in a narrower integer (twelfth round: chunk size narrowed to u32)
+    for w, k, r in width_values():
+        d = k * (1 << w) + r
+        if d >= 1 << 64:
+            continue
+        data = bytes((48 + i % 10) for i in range(r + 5))
+        head = b"HTTP/1.1 200 OK\r\nContent-Length: %d\r\n\r\n" % d
+        add("Content-Length %d * 2^%d + %d, %d bytes supplied" % (k, w, r, r + 5), head + data, None, (len(head), len(head) + r, len(head) + r + 4))
+        head = b"HTTP/1.1 200 OK\r\nTransfer-Encoding: chunked\r\n\r\n"
+        add("chunk size %d * 2^%d + %d, then its CRLF and a last chunk" % (k, w, r), head + b"%x\r\n" % d + data[:r] + b"\r\n0\r\n\r\n", None, (len(head) + 3, len(head) + 12))
+        add("chunk size %d * 2^%d + %d after a first chunk" % (k, w, r), head + b"2\r\nab\r\n%X\r\n" % d + data[:r] + b"\r\n0\r\n\r\n", None, (len(head) + 9,))
     return items
+
+
+def width_values():
+    """(w, k, r): the value k * 2^w + r for the integer widths the source names (and 8, 16, 31, 32, 63), k = 1, 2, 3, and small r"""
+    out = []
+    for w in srcdict.load().get("widths", [8, 16, 31, 32, 63]):
+        for k in (1, 2, 3):
+            for r in (0, 1, 5, 255, 256, 1024, 4096):
+                if w >= 16 or r < (1 << w):
+                    out.append((w, k, r))
+    return out
 
 
 def floods(rng, tier):
@@ -272,6 +303,12 @@ def byte_sweep():
     return out
 
 
+STANDARD_REASONS = [(100, b"Continue"), (101, b"Switching Protocols"), (200, b"OK"), (201, b"Created"), (202, b"Accepted"), (204, b"No Content"), (206, b"Partial Content"),
+                    (301, b"Moved Permanently"), (302, b"Found"), (304, b"Not Modified"), (400, b"Bad Request"), (401, b"Unauthorized"), (403, b"Forbidden"), (404, b"Not Found"),
+                    (405, b"Method Not Allowed"), (408, b"Request Timeout"), (413, b"Payload Too Large"), (418, b"I'm a teapot"), (426, b"Upgrade Required"), (429, b"Too Many Requests"),
+                    (500, b"Internal Server Error"), (501, b"Not Implemented"), (502, b"Bad Gateway"), (503, b"Service Unavailable"), (504, b"Gateway Timeout"), (505, b"HTTP Version Not Supported")]
+
+
 def status_sweep(tier, rng):
     """every status code 0..999 under each framing, followed by bytes that do not belong to the message (a seeded change
     of the sixth round treated exactly one code, 101, differently on exactly one framing path).  The quick tier takes
@@ -291,6 +328,12 @@ def status_sweep(tier, rng):
             else:
                 m = line + b"Transfer-Encoding: chunked\r\nTrailer: T\r\n\r\n3\r\nabc\r\n0\r\nT: v\r\n\r\n"
             out.append({"label": "status %d, framing %s, bytes after the message" % (code, fr), "stream": m + b"HTTP/1.1 200 OK\r\n\r\n", "framing": fr, "msg_len": len(m), "code": code})
+    # the registered reason phrases in other letter cases (twelfth round: a phrase equal to the registered one up to case was
+    # replaced by it)
+    for code, phrase in STANDARD_REASONS:
+        for ph in set([phrase.lower(), phrase.upper(), phrase.swapcase(), phrase.title(), phrase + b" ", phrase[:-1]]):
+            m = b"HTTP/1.1 %d " % code + ph + b"\r\nContent-Length: 0\r\n\r\n"
+            out.append({"label": "status %d with reason phrase %r" % (code, ph.decode()), "stream": m + b"HTTP/1.1 200 OK\r\n\r\n", "framing": "fixed", "msg_len": len(m), "code": code})
     # ... and the codes with a meaning of their own next to every header field of interest (tenth round: 101 together with an
     # Upgrade field swallowed what followed): body-less framing, bytes after the message
     d = srcdict.load()
